@@ -636,7 +636,18 @@ func record(run *v.Run, line, impl string, fails []*failure, nontrivial bool, la
 	idx := run.Add(line, impl, nontrivial, labels...)
 	if len(fails) > 0 {
 		d, s := joinFails(fails)
-		run.Fail(idx, line, d, s)
 		run.Hist["oracle-failure:"+s]++
+		// the run record keeps at most 200 failures: recorded findings must
+		// not crowd out anything else, so only their first few instances are
+		// stored (all are counted in the histogram)
+		if knownSignature(&failure{sig: s}) != "" {
+			knownStored[s]++
+			if knownStored[s] > 5 {
+				return
+			}
+		}
+		run.Fail(idx, line, d, s)
 	}
 }
+
+var knownStored = map[string]int{}
